@@ -86,7 +86,7 @@ class C20(Prop):
         'max_history <= 0 is not a window and is outside the stated domain',
         'with sync=True torch.distributed.barrier is replaced by a counter (no process group)',
     ]
-    examples = {'quick': 400, 'thorough': 4000}
+    examples = {'quick': 600, 'thorough': 4000}
     shards = {'quick': 2, 'thorough': 16}
     required_labels = {'quick': ['nontrivial=True', 'raised=True', 'short_window=True', 'cleared=True'],
                        'thorough': ['nontrivial=True', 'raised=True', 'short_window=True', 'cleared=True', 'sync=True']}
